@@ -25,6 +25,7 @@ type base struct {
 	data    []byte
 	file    pdfw.File
 	xs      *xsBase // container-level PDF written by xsbase.go instead of pdfw (file is unused then)
+	rich    bool    // field-inventory base: structural fault classes only (see richbases.go)
 	built   pdfw.Built
 	members []zipw.Member
 }
@@ -243,5 +244,6 @@ func allBases() []base {
 		zipBase("epub3", ".epub", epubMembers(3)),
 	)
 	bs = append(bs, base{name: "html", ext: ".html", kind: "html", data: htmlBytes()})
+	bs = append(bs, richBases()...)
 	return bs
 }
